@@ -17,7 +17,7 @@ SHARDS = {"quick": 8, "thorough": 16}
 RULE = ("a hostile packet recipe (templates: V2 response, V3 handshake reply, V3 encrypted response, V3 error packet, raw bytes; "
         "operators: header fields set to boundary values, ciphertext length not a multiple of 16, valid signature/tag recomputed "
         "over random or truncated ciphertext, bad PKCS#7 under a valid signature, empty payload, every type nibble, wrong key, "
-        "clear data, splice/concatenate, arbitrary segmentation) is sent by the model device at a protocol phase (V2 send; V3 "
+        "clear data, splice/concatenate, bursts of 1100/2600 identical small packets in one delivery for every type nibble, arbitrary segmentation) is sent by the model device at a protocol phase (V2 send; V3 "
         "handshake, data after authentication, re-authentication after 12 h; or pushed unsolicited on an idle established connection before the next call) to one API level (LAN.authenticate/LAN.send, "
         "Device.authenticate/Device._send_command, AirConditioner.refresh). Oracle: LAN calls end in list-of-bytes / ProtocolError "
         "(incl. AuthenticationError) / TimeoutError; Device.authenticate only AuthenticationError; Device._send_command returns a "
@@ -197,6 +197,8 @@ def _nontrivial(case) -> bool:
             return rr.get("tag", "ok") == "ok" or signed(rr.get("inner", {}))
         if rr.get("t") == "seq":
             return any(signed(x) for x in rr["items"])
+        if rr.get("t") == "rep":
+            return signed(rr["item"]) or signed(rr.get("tail") or {})
         return False
     if signed(r):
         return True
@@ -212,6 +214,8 @@ def _run_one(ctx, case):
     cls = f"v{case['version']}/{case['phase']}/{case['api']}"
     ctx.case(key, nt, cls=cls)
     ctx.label("tmpl=" + case["hostile"].get("t", "raw"))
+    if case.get("burst"):
+        ctx.label("burst of >= 1100 packets")
     ctx.sample(cls, case)
     return check_case(case)
 
@@ -292,6 +296,27 @@ def _catalogue():
             d = round(2.0 - j * 0.00025, 6)
             cases.append({"version": 3, "phase": "send", "api": "lan", "hostile": {"t": "v3", "ptype": pt, "inner": {"t": "v2"}, "enc": "ok", "tag": "ok"},
                           "cuts": [], "delay": d, "tick": 0.001})
+    # bursts: a long run of identical small packets in one delivery (for every type nibble: header-only 8-byte packets,
+    # and well-formed signed/tagged ones), optionally with a genuine response behind them
+    genuine = {"t": "v3", "ptype": 3, "inner": {"t": "v2"}, "enc": "ok", "tag": "ok"}
+    for pt in range(16):
+        for n in (1100, 2600):
+            for phase in ("send", "idle", "reauth"):
+                for api in ("lan", "device", "ac"):
+                    if (pt + n // 100 + len(phase) + len(api)) % 3 and pt != 1:
+                        continue
+                    item = {"t": "raw", "data": "83700000" + "20%02x" % pt + "%04x" % (pt * 257)}
+                    cases.append({"version": 3, "phase": phase, "api": api, "cuts": [], "burst": True,
+                                  "hostile": {"t": "rep", "n": n, "item": item, "tail": genuine if (pt + n) % 2 else None}})
+        cases.append({"version": 3, "phase": "send", "api": "lan", "cuts": [], "burst": True,
+                      "hostile": {"t": "rep", "n": 1100, "item": {"t": "v3", "ptype": pt, "inner": {"t": "raw", "data": bytes(64).hex()}, "enc": "clear", "tag": "ok"}, "tail": genuine}})
+    for n in (1100, 2600):
+        for api in ("lan", "device", "ac"):
+            for phase in ("send", "idle"):
+                cases.append({"version": 2, "phase": phase, "api": api, "cuts": [], "burst": True,
+                              "hostile": {"t": "rep", "n": n, "item": {"t": "raw", "data": "5a5a01110600"}, "tail": {"t": "v2"}}})
+                cases.append({"version": 2, "phase": phase, "api": api, "cuts": [], "burst": True,
+                              "hostile": {"t": "rep", "n": n, "item": {"t": "v2", "sign": "bad"}, "tail": {"t": "v2"}}})
     return cases
 
 
